@@ -68,6 +68,12 @@ fn process_tcp_packet(
 
     let flow_key: FlowKey = (src_ip, dst_ip, src_port, dst_port);
 
+    // A SYN starts a new connection: whatever an earlier, unfinished connection on the same
+    // 4-tuple left in its reader must not be spliced onto the new connection's bytes
+    if tcp.get_flags() & pnet::packet::tcp::TcpFlags::SYN != 0 {
+        tcp_flows.remove(&flow_key);
+    }
+
     let payload = tcp.payload();
     if payload.is_empty() {
         return Ok(None);
